@@ -99,8 +99,11 @@ struct ScriptEngine : detail::EngineBase
   void unlock() { lk.clear(std::memory_order_release); }
 
   StartResult start() override;
+  std::mutex stopMutex; // as in the real engines: concurrent stop() calls are serialized (not on the I/O thread itself)
   void stop() override
   {
+    std::unique_lock<std::mutex> sl(stopMutex, std::defer_lock);
+    if (std::this_thread::get_id() != ioId) sl.lock();
     bool e = true;
     if (!running.compare_exchange_strong(e, false)) return;
     stopReq = true;
@@ -173,8 +176,36 @@ struct World
   std::map<SessionId, long> nextByte;    // per session: id of the next byte the engine delivers
   std::map<std::string, ObserverId> obsIds;
   std::atomic<bool> destroyed{false};
+  std::atomic<bool> armReset{false}; // the next global close callback releases the (sole) owner from inside the callback
   long long vms() { return vf::virtualAdvanceNs() / 1000000LL; }
-  std::atomic<bool> &flag(const std::string &f) { return flags[f]; }
+  // all flags are created before any thread starts (prepareFlags): afterwards the map is only read
+  std::atomic<bool> &flag(const std::string &f) { return flags.find(f)->second; }
+  void prepareFlags()
+  {
+    for (auto &tp : prog)
+      for (auto &o : tp.ops)
+        if ((o.f[0] == "waitflag" || o.f[0] == "setflag") && o.f.size() > 1) flags[o.f[1]];
+  }
+  std::atomic_flag obsLock = ATOMIC_FLAG_INIT;
+  void setObs(const std::string &tag, ObserverId id)
+  {
+    while (obsLock.test_and_set(std::memory_order_acquire))
+    {
+    }
+    obsIds[tag] = id;
+    obsLock.clear(std::memory_order_release);
+  }
+  bool getObs(const std::string &tag, ObserverId &id)
+  {
+    while (obsLock.test_and_set(std::memory_order_acquire))
+    {
+    }
+    auto it = obsIds.find(tag);
+    bool ok = it != obsIds.end();
+    if (ok) id = it->second;
+    obsLock.clear(std::memory_order_release);
+    return ok;
+  }
 };
 
 ConnectResult ScriptEngine::connect(const std::string &, std::uint16_t, TlsMode)
@@ -379,7 +410,19 @@ static void installCallbacks(World *w, Transport *t)
 {
   t->onAccept([w](SessionId s, const TransportAddress &) { w->tr.add(vf::Ev("GlobalAccept").i("s", (long long)s).b("as", w->stopReturned.load())); });
   t->onConnect([w](SessionId s, const TransportAddress &) { w->tr.add(vf::Ev("GlobalConnect").i("s", (long long)s).b("as", w->stopReturned.load())); });
-  t->onClose([w](SessionId s, const TransportErrorInfo &) { w->tr.add(vf::Ev("GlobalClose").i("s", (long long)s).b("as", w->stopReturned.load())); });
+  t->onClose(
+    [w](SessionId s, const TransportErrorInfo &)
+    {
+      w->tr.add(vf::Ev("GlobalClose").i("s", (long long)s).b("as", w->stopReturned.load()));
+      bool e = true;
+      if (w->armReset.compare_exchange_strong(e, false))
+      {
+        // sole owner releases the transport inside its own close callback (I/O thread): deferred self-destruction
+        w->tr.add(vf::Ev("LifeCall").str("t", "io").str("op", "destroy_in_cb"));
+        w->owner.reset();
+        w->tr.add(vf::Ev("LifeRet").str("t", "io").str("op", "destroy_in_cb"));
+      }
+    });
   t->onData(
     [w](SessionId s, iora::core::BufferView d, std::chrono::steady_clock::time_point)
     {
@@ -448,15 +491,15 @@ static void appOps(World *w, const ThreadProg &tp, std::vector<std::thread> *oth
       std::string tag = f[2];
       auto id = t->observe(s, [w, tag](SessionId sid, const TransportErrorInfo &)
                            { w->tr.add(vf::Ev("Obs").i("s", (long long)sid).str("tag", tag).b("as", w->stopReturned.load())); });
-      w->obsIds[tag] = id;
+      w->setObs(tag, id);
       w->tr.add(vf::Ev("ObserveRet").str("t", tp.name).i("s", (long long)s).str("tag", tag));
     }
     else if (op == "unobserve")
     {
-      auto it = w->obsIds.find(f[1]);
-      if (it == w->obsIds.end()) continue;
+      ObserverId oid = 0;
+      if (!w->getObs(f[1], oid)) continue;
       w->tr.add(vf::Ev("UnobserveCall").str("t", tp.name).str("tag", f[1]));
-      bool ok = t->unobserve(it->second);
+      bool ok = t->unobserve(oid);
       w->tr.add(vf::Ev("UnobserveRet").str("t", tp.name).str("tag", f[1]).b("ok", ok));
     }
     else if (op == "setdata")
@@ -494,6 +537,11 @@ static void appOps(World *w, const ThreadProg &tp, std::vector<std::thread> *oth
       w->stopReturned.store(true);
       w->tr.add(vf::Ev("LifeRet").str("t", tp.name).str("op", "stop"));
     }
+    else if (op == "armreset" && others)
+    {
+      w->destroyed = true; // main gives the transport up: whoever runs the next close callback destroys it
+      w->armReset = true;
+    }
     else if (op == "join" && others)
     {
       for (auto &th : *others)
@@ -523,6 +571,7 @@ static std::string runOne(int cap, const std::vector<ThreadProg> &prog, const vf
 {
   auto w = std::make_shared<World>();
   w->prog = prog;
+  w->prepareFlags();
   w->tr.add(vf::Ev("Begin").i("cap", cap));
   vf::Options o = opt;
   o.maxSteps = 30000;
